@@ -369,7 +369,10 @@ Definition write (v : variant) (f : fmt) (s : state) : option (list Z) :=
   | SLazy x [] => Some (x_data (contiguous x))
   | SLazy x sv =>
       match f with
-      | FBam => None                                       (* supports_modified_write = False *)
+      | FBam => match x_es x with
+                | [] => Some []      (* the writer returns before get_buffer when the table is empty *)
+                | _ => None          (* supports_modified_write = False *)
+                end
       | _ => Some (concat (map (join_row v f) (lazy_rows f x sv)))
       end
   | SEager rows => Some (concat (map (join_row v f) rows))
